@@ -8,6 +8,7 @@ package main
 // order, so a property decided on the variant is decided for the program.
 
 import (
+	"strings"
 	"os"
 	"bytes"
 	"fmt"
@@ -26,14 +27,17 @@ const (
 // helperEligible: an unexported, named (not anonymous) module function. (One that is also used as a value is inlined at
 // its static call sites but never dropped from the function list.)
 func (p *Prog) helperEligible(g *ssa.Function) bool {
-	if g == nil || g.Parent() != nil || !p.InModule(g) || g.Blocks == nil || g.Synthetic != "" {
+	if g == nil || g.Parent() != nil || !p.InModule(g) || g.Blocks == nil {
 		return false
+	}
+	if g.Synthetic != "" && !strings.HasPrefix(g.Synthetic, "instance of") {
+		return false // wrappers and thunks; a monomorphised instance of a generic helper has an ordinary body
 	}
 	if token.IsExported(g.Name()) || g.Name() == "init" || g.Name() == "main" {
 		return false
 	}
-	if g.TypeParams() != nil || len(g.TypeArgs()) > 0 {
-		return false
+	if g.TypeParams().Len() > 0 && len(g.TypeArgs()) == 0 {
+		return false // the generic body itself
 	}
 	return true
 }
